@@ -560,8 +560,17 @@ func (r ImportsReplacer) Cleanup(d data.Data, f *ast.File, added []addedImport) 
 
 // TODO: This is probably not the best place or method to implement this.
 func usesNameAsTopLevel(f *ast.File, name string) bool {
-	var used bool
+	var (
+		used  bool
+		stack []ast.Node
+	)
 	ast.Inspect(f, func(n ast.Node) bool {
+		if n == nil {
+			stack = stack[:len(stack)-1]
+			return true
+		}
+		stack = append(stack, n)
+
 		sel, ok := n.(*ast.SelectorExpr)
 		if !ok {
 			return true // keep looking
@@ -572,13 +581,144 @@ func usesNameAsTopLevel(f *ast.File, name string) bool {
 			return true // keep looking
 		}
 
-		if x.Name == name && x.Obj == nil {
+		// The parser resolved the names of the file as it was. Code that
+		// the patch wrote has not been resolved: there the name means the
+		// package unless something in scope declares it.
+		if x.Name == name && x.Obj == nil && !declaredInScope(stack, name) {
 			used = true
 		}
 
+		stack = stack[:len(stack)-1]
 		return false
 	})
 	return used
+}
+
+// declaredInScope reports whether a function, block or statement around the
+// last node of the path declares the name in front of it.
+func declaredInScope(path []ast.Node, name string) bool {
+	for i := len(path) - 2; i >= 0; i-- {
+		child := path[i+1]
+		switch n := path[i].(type) {
+		case *ast.FuncDecl:
+			if fieldsDeclare(n.Recv, name) || funcTypeDeclares(n.Type, name) {
+				return true
+			}
+		case *ast.FuncLit:
+			if funcTypeDeclares(n.Type, name) {
+				return true
+			}
+		case *ast.BlockStmt:
+			if stmtsDeclare(n.List, child, name) {
+				return true
+			}
+		case *ast.CaseClause:
+			if stmtsDeclare(n.Body, child, name) {
+				return true
+			}
+		case *ast.CommClause:
+			if n.Comm != child && stmtDeclares(n.Comm, name) || stmtsDeclare(n.Body, child, name) {
+				return true
+			}
+		case *ast.IfStmt:
+			if n.Init != child && stmtDeclares(n.Init, name) {
+				return true
+			}
+		case *ast.ForStmt:
+			if n.Init != child && stmtDeclares(n.Init, name) {
+				return true
+			}
+		case *ast.SwitchStmt:
+			if n.Init != child && stmtDeclares(n.Init, name) {
+				return true
+			}
+		case *ast.TypeSwitchStmt:
+			if n.Init != child && stmtDeclares(n.Init, name) {
+				return true
+			}
+			if child == n.Body && stmtDeclares(n.Assign, name) {
+				return true
+			}
+		case *ast.RangeStmt:
+			if child == n.Body && n.Tok == token.DEFINE && (isIdentNamed(n.Key, name) || isIdentNamed(n.Value, name)) {
+				return true
+			}
+		}
+	}
+	return false
+}
+
+func funcTypeDeclares(t *ast.FuncType, name string) bool {
+	return t != nil && (fieldsDeclare(t.TypeParams, name) || fieldsDeclare(t.Params, name) || fieldsDeclare(t.Results, name))
+}
+
+func fieldsDeclare(fl *ast.FieldList, name string) bool {
+	if fl == nil {
+		return false
+	}
+	for _, f := range fl.List {
+		for _, n := range f.Names {
+			if n.Name == name {
+				return true
+			}
+		}
+	}
+	return false
+}
+
+// stmtsDeclare reports whether one of the statements in front of the given
+// one declares the name.
+func stmtsDeclare(list []ast.Stmt, upTo ast.Node, name string) bool {
+	for _, s := range list {
+		if s == upTo {
+			break
+		}
+		if stmtDeclares(s, name) {
+			return true
+		}
+	}
+	return false
+}
+
+func stmtDeclares(s ast.Stmt, name string) bool {
+	switch s := s.(type) {
+	case *ast.LabeledStmt:
+		return stmtDeclares(s.Stmt, name)
+	case *ast.AssignStmt:
+		if s.Tok != token.DEFINE {
+			return false
+		}
+		for _, l := range s.Lhs {
+			if isIdentNamed(l, name) {
+				return true
+			}
+		}
+	case *ast.DeclStmt:
+		d, ok := s.Decl.(*ast.GenDecl)
+		if !ok {
+			return false
+		}
+		for _, spec := range d.Specs {
+			switch spec := spec.(type) {
+			case *ast.ValueSpec:
+				for _, n := range spec.Names {
+					if n.Name == name {
+						return true
+					}
+				}
+			case *ast.TypeSpec:
+				if spec.Name.Name == name {
+					return true
+				}
+			}
+		}
+	}
+	return false
+}
+
+func isIdentNamed(e ast.Expr, name string) bool {
+	id, ok := e.(*ast.Ident)
+	return ok && id.Name == name
 }
 
 // deleteNamedImport deletes the import with the given name and path from the
